@@ -4,7 +4,7 @@ import json,sys,subprocess,os
 pid=sys.argv[1]
 k0=int(sys.argv[2]) if len(sys.argv)>2 else 1
 # VARIANT: later rounds ask for less central sites
-extra=(' Prefer sites that are NOT the most obvious one for this property: helper functions, code paths that handle errors, empty or boundary inputs, rarely used options, the interplay of two packages, or a second call of an operation on the same object; avoid simply weakening the single most central check.' if 7<=k0<9 else (' Prefer changes whose effect depends on a configuration option, on an optional or rarely used exported function, on a second proxy hop or a second wrapper around the first, or on state left behind by an earlier failed or partial call; avoid the single most central check of the property, and avoid changes in functions whose names appear in the property text.' if 9<=k0<11 else (' Make each change look like a well-meant performance optimisation or clean-up that is subtly wrong: caching or reusing a value or a buffer, hoisting a check out of a loop or behind a fast path, replacing a library call by a seemingly equivalent one, merging two similar branches, or short-circuiting a case believed to be common. Include the kind of code comment such a change would come with.' if 11<=k0<13 else (' Make each change a typical Go pitfall introduced while adding a small feature or fixing an unrelated bug: a shadowed err variable (:= in an inner scope), a defer placed in a loop or before the error check, a slice aliased through append or re-slicing, a map or slice shared between two objects instead of copied, a range variable or loop counter captured by a closure, an integer conversion or comparison of mixed signedness/width, a nil interface holding a typed nil, a method value bound too early, a switch case that falls out of order, or a context/Close call moved to the wrong branch. The feature or fix itself should be plausible and come with the comment a developer would write.' if k0>=13 else ''))))
+extra=(' Prefer sites that are NOT the most obvious one for this property: helper functions, code paths that handle errors, empty or boundary inputs, rarely used options, the interplay of two packages, or a second call of an operation on the same object; avoid simply weakening the single most central check.' if 7<=k0<9 else (' Prefer changes whose effect depends on a configuration option, on an optional or rarely used exported function, on a second proxy hop or a second wrapper around the first, or on state left behind by an earlier failed or partial call; avoid the single most central check of the property, and avoid changes in functions whose names appear in the property text.' if 9<=k0<11 else (' Make each change look like a well-meant performance optimisation or clean-up that is subtly wrong: caching or reusing a value or a buffer, hoisting a check out of a loop or behind a fast path, replacing a library call by a seemingly equivalent one, merging two similar branches, or short-circuiting a case believed to be common. Include the kind of code comment such a change would come with.' if 11<=k0<13 else (' Make each change a typical Go pitfall introduced while adding a small feature or fixing an unrelated bug: a shadowed err variable (:= in an inner scope), a defer placed in a loop or before the error check, a slice aliased through append or re-slicing, a map or slice shared between two objects instead of copied, a range variable or loop counter captured by a closure, an integer conversion or comparison of mixed signedness/width, a nil interface holding a typed nil, a method value bound too early, a switch case that falls out of order, or a context/Close call moved to the wrong branch. The feature or fix itself should be plausible and come with the comment a developer would write.' if 13<=k0<15 else (' Put each change in an error path, a cleanup path or an initialisation path: a constructor or option default (New functions, zero values of option structs), a Close/Cancel/Commit sequence, a deferred call, what is returned together with a non-nil error, which error is wrapped or compared (errors.Is / errors.As / ==), a partial result returned with a nil error, a lock released too early or held across a callback, or a retry that repeats a non-idempotent step. The happy path that the existing tests exercise must stay exactly as it is.' if k0>=15 else '')))))
 wt=f"/tmp/seed-{pid}"
 if not os.path.exists(wt):
     subprocess.run(["git","-C","/repo","worktree","add","-q","--detach",wt,"HEAD"],check=True)
